@@ -437,4 +437,103 @@ theorem quantExp_le (s : Dec) (h : 0 ≤ s.exp ∨ s.coef % 10 ≠ 0 ∨ s.exp =
         simp [hsn, hr0, hm0, trailingZeros_of_mod _ _ hm]
       · simp [hsn, hr0, trailingZeros_of_mod _ _ hr10]
 
+theorem quantExp_ge (s : Dec) : -1 ≤ quantExp s ∨ s.exp ≤ quantExp s := by
+  unfold quantExp
+  split
+  · left; omega
+  · dsimp only
+    generalize (if (s.neg && s.coef % 10 ^ (-s.exp).toNat != 0) = true
+      then 10 ^ (-s.exp).toNat - s.coef % 10 ^ (-s.exp).toNat else s.coef % 10 ^ (-s.exp).toNat) = m
+    split
+    · left; omega
+    · right; omega
+
+set_option exponentiation.threshold 2048 in
+theorem ceil_natAbs_bound (x s : Rat) (h : quotientOverflows x s = false) :
+    (x / s).ceil.natAbs < 10 ^ 309 := by
+  unfold quotientOverflows at h
+  simp only [decide_eq_false_iff_not, ge_iff_le, not_le] at h
+  have hB : ((2 ^ 1024 - 2 ^ 970 : Nat) : Rat) + 1 ≤ ((10 ^ 309 : Nat) : Rat) := by
+    have : (2 ^ 1024 - 2 ^ 970 : Nat) + 1 ≤ 10 ^ 309 := by norm_num
+    exact_mod_cast this
+  have h1 := le_ceil' (x / s)
+  have h2 := ceil_lt_add_one' (x / s)
+  have hk : -((10 ^ 309 : Nat) : Rat) < ((x / s).ceil : Rat) ∧ ((x / s).ceil : Rat) < ((10 ^ 309 : Nat) : Rat) := by
+    split at h <;> constructor <;> linarith
+  have hk' : -((10 ^ 309 : Nat) : Int) < (x / s).ceil ∧ (x / s).ceil < ((10 ^ 309 : Nat) : Int) := by
+    constructor
+    · have := hk.1; exact_mod_cast this
+    · have := hk.2; exact_mod_cast this
+  omega
+
+
+/-! ### definitions used by the statements of Props.C16 -/
+
+/-- primitives that return `0` everywhere except a projecting `atan2` -/
+def probePrims : Prims :=
+  { sin := fun _ => .val 0, cos := fun _ => .val 0, tan := fun _ => .val 0, asin := fun _ => .val 0,
+    acos := fun _ => .val 0, atan := fun _ => .val 0, cosh := fun _ => .val 0,
+    asinh := fun _ => .val 0, acosh := fun _ => .val 0, exp := fun _ => .val 0,
+    ln := fun _ => .val 0, log10 := fun _ => .val 0, sqrt := fun _ => .val 0,
+    degrees := fun _ => .val 0, radians := fun _ => .val 0, atan2 := fun y _ => .val y,
+    pow := fun _ _ => .val 0, logb := fun _ _ => .val 0, pi := 3 }
+
+/-- the result is a finite value or an Excel error value -/
+def Fine {α} (r : Res α) : Prop := (∃ a, r = .val a) ∨ (∃ c, r = .xlerr c)
+
+/-- What the primitives (numpy / libm) are assumed to do: they return a finite value on their
+    mathematical domain; `exp`, `cosh` and the degree conversion may overflow to an infinity, a float
+    power may raise `OverflowError`; nothing else.  Hypotheses of `domain_total`, not axioms. -/
+structure Contracts (P : Prims) : Prop where
+  sin : ∀ x, ∃ r, P.sin x = .val r
+  cos : ∀ x, ∃ r, P.cos x = .val r
+  tan : ∀ x, ∃ r, P.tan x = .val r
+  atan : ∀ x, ∃ r, P.atan x = .val r
+  asinh : ∀ x, ∃ r, P.asinh x = .val r
+  radians : ∀ x, ∃ r, P.radians x = .val r
+  atan2 : ∀ y x, ∃ r, P.atan2 y x = .val r
+  asin : ∀ x, -1 ≤ x → x ≤ 1 → ∃ r, P.asin x = .val r
+  acos : ∀ x, -1 ≤ x → x ≤ 1 → ∃ r, P.acos x = .val r
+  acosh : ∀ x, 1 ≤ x → ∃ r, P.acosh x = .val r
+  ln : ∀ x, 0 < x → ∃ r, P.ln x = .val r
+  log10 : ∀ x, 0 < x → ∃ r, P.log10 x = .val r
+  sqrt : ∀ x, 0 ≤ x → ∃ r, P.sqrt x = .val r
+  logb : ∀ x b, 0 < x → 0 < b → b ≠ 1 → ∃ r, P.logb x b = .val r
+  exp : ∀ x, (∃ r, P.exp x = .val r) ∨ P.exp x = .posInf
+  cosh : ∀ x, (∃ r, P.cosh x = .val r) ∨ P.cosh x = .posInf
+  degrees : ∀ x, (∃ r, P.degrees x = .val r) ∨ P.degrees x = .posInf ∨ P.degrees x = .negInf
+  pow : ∀ x y, (x ≠ 0 ∨ 0 ≤ y) → (0 ≤ x ∨ ((truncZ y : Int) : Rat) = y) →
+    (∃ r, P.pow x y = .val r) ∨ P.pow x y = .crash .overflow
+
+/-- a call of one of the modelled functions -/
+inductive Call
+  | ABS (n : Num) | SIGN (n : Num) | SQRT (n : Num) | POWER (n p : Num) | EXP (n : Num) | LN (n : Num)
+  | LOG (n b : Num) | LOG10 (n : Num) | MOD (n d : Num) | FACT (n : Num) | FACTDOUBLE (n : Num)
+  | SIN (n : Num) | COS (n : Num) | TAN (n : Num) | ASIN (n : Num) | ACOS (n : Num) | ATAN (n : Num)
+  | ATAN2 (x y : Num) | COSH (n : Num) | ASINH (n : Num) | ACOSH (n : Num) | DEGREES (n : Num)
+  | RADIANS (n : Num) | PI
+
+/-- run a call on the model -/
+def run (P : Prims) : Call → Res Num
+  | .ABS n => ABS n | .SIGN n => SIGN n | .SQRT n => SQRT P n | .POWER n p => POWER P n p
+  | .EXP n => EXP P n | .LN n => LN P n | .LOG n b => LOG P n b | .LOG10 n => LOG10 P n
+  | .MOD n d => MOD n d | .FACT n => FACT n | .FACTDOUBLE n => FACTDOUBLE n
+  | .SIN n => SIN P n | .COS n => COS P n | .TAN n => TAN P n | .ASIN n => ASIN P n
+  | .ACOS n => ACOS P n | .ATAN n => ATAN P n | .ATAN2 x y => ATAN2 P x y | .COSH n => COSH P n
+  | .ASINH n => ASINH P n | .ACOSH n => ACOSH P n | .DEGREES n => DEGREES P n
+  | .RADIANS n => RADIANS P n | .PI => PI P
+
+/-- the function and the rational arguments of a call, as the domain table reads them -/
+def Call.sig : Call → Fn × List Rat
+  | .ABS n => (.ABS, [n.toRat]) | .SIGN n => (.SIGN, [n.toRat]) | .SQRT n => (.SQRT, [n.toRat])
+  | .POWER n p => (.POWER, [n.toRat, p.toRat]) | .EXP n => (.EXP, [n.toRat]) | .LN n => (.LN, [n.toRat])
+  | .LOG n b => (.LOG, [n.toRat, b.toRat]) | .LOG10 n => (.LOG10, [n.toRat])
+  | .MOD n d => (.MOD, [n.toRat, d.toRat]) | .FACT n => (.FACT, [n.toRat])
+  | .FACTDOUBLE n => (.FACTDOUBLE, [n.toRat]) | .SIN n => (.SIN, [n.toRat]) | .COS n => (.COS, [n.toRat])
+  | .TAN n => (.TAN, [n.toRat]) | .ASIN n => (.ASIN, [n.toRat]) | .ACOS n => (.ACOS, [n.toRat])
+  | .ATAN n => (.ATAN, [n.toRat]) | .ATAN2 x y => (.ATAN2, [x.toRat, y.toRat]) | .COSH n => (.COSH, [n.toRat])
+  | .ASINH n => (.ASINH, [n.toRat]) | .ACOSH n => (.ACOSH, [n.toRat]) | .DEGREES n => (.DEGREES, [n.toRat])
+  | .RADIANS n => (.RADIANS, [n.toRat]) | .PI => (.PI, [])
+
+
 end XlVerif.Lemmas.C16
